@@ -87,28 +87,26 @@ Proof. exact chain_header_lists. Qed.
     header block (then the client gets no complete response; the record shows
     the target's status, or the default 200 if the response was being
     buffered and nothing had been passed on). *)
-Theorem c19_chain_status_partial : forall svc c rl e,
+Theorem c19_chain_status : forall svc c rl e,
   (forall t s body, e = EProxied t (TBRespond s body) -> final_status s) ->
   (forall t s sent f, e = EProxied t (TBFailAfter s sent f) -> final_status s) ->
-  (forall t s body, e = EProxiedHints t s body -> final_status s /\ c_buffer_resp c = false) ->
+  (forall t s body, e = EProxiedHints t s body -> final_status s) ->
   let '(_, ops, _) := chain svc c rl e in
   lw_status (lw_run ops) = ending_status c e /\
   ((forall t s sent f, e <> EProxied t (TBFailAfter s sent f)) -> client_status ops = ending_status c e).
 Proof. exact chain_status. Qed.
 
-(** The extra hypothesis on responses preceded by 103 Early Hints is needed:
-    with response buffering the buffered writer keeps the FIRST WriteHeader, so
-    the record says 103 and the client is told an implicit 200, whatever the
-    target's final status was (a defect of response_buffer_middleware.go, see
-    known_findings/C19.json F3 and fixes/C19-buffered-informational-status.patch). *)
-Theorem c19_chain_status_refuted : forall svc rl t s body,
+(** This includes responses preceded by 103 Early Hints under response
+    buffering only since repair 59cbdb7.  On the PINNED buffered writer (first
+    WriteHeader taken as final) it was false: the record said 103 and the
+    client was told an implicit 200, whatever the target's final status. *)
+Theorem c19_chain_status_pinned_refuted : forall maxm s body,
   body <> [] ->
-  let c := mkCfg true 1048576 0 None [] in
-  let '(_, ops, _) := chain svc c rl (EProxiedHints t s body) in
+  let ops := hints_ops_pinned maxm 0 s body in
   lw_status (lw_run ops) = 103 /\ client_status ops = 200.
 Proof.
-  intros svc rl t s body Hne. cbv zeta.
-  apply (buffered_hints svc (mkCfg true 1048576 0 None []) rl t s body); auto.
+  intros maxm s body Hne. apply buffered_hints_pinned; [|exact Hne].
+  unfold body_too_large. reflexivity.
 Qed.
 
 (** The chain ends in a panic exactly for a failure after the header block;
@@ -160,6 +158,14 @@ Example c19_example_chain :
   lw_bytes (lw_run ops) = 4 /\ en = HReturn.
 Proof. vm_compute. repeat split. Qed.
 
+Example c19_example_buffered_hints_repaired :
+  let t := mkTi (bs "10.0.0.1:80") [] [] in
+  let c := mkCfg true 1048576 0 None [] in
+  let '(_, ops, _) := chain (bs "web") c 0 (EProxiedHints t 404 (bs "nf")) in
+  ops = [OpWriteHeader 103; OpWriteHeader 404; OpWrite 2 2] /\ lw_status (lw_run ops) = 404 /\
+  hints_ops_pinned 1048576 0 404 (bs "nf") = [OpWriteHeader 103; OpWrite 2 2].
+Proof. vm_compute. repeat split. Qed.
+
 Print Assumptions c19_status.
 Print Assumptions c19_status_client.
 Print Assumptions c19_status_refuted.
@@ -168,7 +174,7 @@ Print Assumptions c19_exactly_one.
 Print Assumptions c19_fields.
 Print Assumptions c19_service_target.
 Print Assumptions c19_header_lists.
-Print Assumptions c19_chain_status_partial.
-Print Assumptions c19_chain_status_refuted.
+Print Assumptions c19_chain_status.
+Print Assumptions c19_chain_status_pinned_refuted.
 Print Assumptions c19_panic_iff.
 Print Assumptions c19_extra_headers.
